@@ -17,6 +17,28 @@ def data! (s : String) : List Nat := (s.toList.drop 1).map Char.toNat
 
 def showData (d : List Nat) : String := "=" ++ String.ofList (d.map Char.ofNat)
 
+/-- delays travel as integers in half units (or `x<16 hex digits>` = raw f64 bits); the model stores
+    the bit pattern of the f64 value, whose unsigned order is the numeric order for non-negative values -/
+def hexDigit (n : Nat) : Char := if n < 10 then Char.ofNat (48 + n) else Char.ofNat (87 + n)
+
+def hex16 (n : Nat) : String :=
+  String.ofList ((List.range 16).reverse.map fun i => hexDigit ((n >>> (4 * i)) % 16))
+
+def parseHex (s : String) : Nat :=
+  s.toList.foldl (fun acc c =>
+    let v := if c.isDigit then c.toNat - 48 else if c.toNat ≥ 97 then c.toNat - 87 else c.toNat - 55
+    acc * 16 + v) 0
+
+def delayBits (tok : String) : Nat :=
+  match tok.toList with
+  | 'x' :: rest => parseHex (String.ofList rest)
+  | _ => (Float.ofNat (nat! tok) * 0.5).toBits.toNat
+
+def unitsOf (bits : Nat) : String :=
+  let f := Float.ofBits bits.toUInt64
+  let u := f * 2.0
+  if u >= 0.0 && u == u.floor && u < 1e15 then toString u.toUInt64 else "x" ++ hex16 bits
+
 def showList (l : List String) : String := "[" ++ ",".intercalate l ++ "]"
 
 def showNats (l : List Nat) : String := showList (l.map toString)
@@ -24,19 +46,19 @@ def showNats (l : List Nat) : String := showList (l.map toString)
 /-- options token: `N<maxdelay>` or `F<drop><dupl><corrupt>` (single digits) -/
 def opts! (s : String) : Opts :=
   match s.toList with
-  | 'N' :: rest => .noFail (nat! (String.ofList rest))
+  | 'N' :: rest => .noFail (delayBits (String.ofList rest))
   | ['F', a, b, c] => .faults (a == '1') (b.toNat - '0'.toNat) (c == '1')
   | _ => .noFail 0
 
 def showOpts : Opts → String
-  | .noFail d => s!"N{d}"
+  | .noFail d => s!"N{unitsOf d}"
   | .faults a b c => s!"F{if a then 1 else 0}{b}{if c then 1 else 0}"
 
 def showMsg (m : Msg) : String := s!"m{m.tip},{showData m.data}"
 
 def showEv : Ev → String
   | .msg m s d o => s!"M({showMsg m},p{s},p{d},{showOpts o})"
-  | .timer p n d => s!"T(p{p},t{n},{d})"
+  | .timer p n d => s!"T(p{p},t{n},{unitsOf d})"
   | .timerCancelled p n => s!"TC(p{p},t{n})"
   | .dropped m s d rid => s!"D({showMsg m},p{s},p{d},{match rid with | some i => toString i | none => "-"})"
   | .duplicated m s d rid => s!"DU({showMsg m},p{s},p{d},{rid})"
